@@ -360,6 +360,40 @@ def _run_restarts(ctx: RunContext, pm) -> None:
             break
 
 
+def _run_evaluator_sequence(ctx: RunContext, pm) -> None:
+    """One EnsembleEvaluator object (public class) answering scn["requests"] in turn, each {"op": f|g|fg, "x": [...],
+    "faults": [...] (optional: the evaluator's fault list from this request on)}.  Every answer is recorded as a
+    FINISHED_EVALUATION event of step 0, so that the oracles written for plan runs apply unchanged."""
+    from types import SimpleNamespace
+
+    from ropt.config.enopt import EnOptConfig
+    from ropt.ensemble_evaluator import EnsembleEvaluator
+
+    scn = ctx.scn
+    cfg = prepare_config(scn["configs"][0], ctx)
+    cfg.pop("optimizer", None)
+    config = EnOptConfig.model_validate(cfg)
+    ee = EnsembleEvaluator(config, None, ctx.evaluator, pm)
+    ctx.step_index["sequence"] = 0
+    ctx.step_meta.append({"kind": "evaluator-object", "level": 0, "cfg": 0})
+    for i, req in enumerate(scn["requests"]):
+        if req.get("faults") is not None:
+            ctx.evaluator.faults = list(req["faults"])
+        try:
+            results = ee.calculate(np.asarray(req["x"], dtype=np.float64), compute_functions="f" in req["op"],
+                                   compute_gradients="g" in req["op"])
+            ctx.exits.append(("ret", i, len(results)))
+        except OptimizationAborted as exc:
+            ctx.exits.append(("abort_escaped", i, int(exc.exit_code)))
+            continue
+        except Exception as exc:  # noqa: BLE001
+            ctx.exits.append(("exception", i, f"{type(exc).__name__}: {exc}"))
+            ctx.last_exception = exc
+            break
+        ctx.on_event(SimpleNamespace(event_type=EventType.FINISHED_EVALUATION, source="sequence", config=config,
+                                     data={"results": tuple(results)}), "obs")
+
+
 def run_scenario(scn: dict, setup=None, shared: dict | None = None) -> RunContext:
     """Execute the scenario against the real ropt code; return the populated context.
 
@@ -403,6 +437,8 @@ def run_scenario(scn: dict, setup=None, shared: dict | None = None) -> RunContex
         ctx.context = context
         if scn.get("entry") == "optimizer_object_restarts":
             _run_restarts(ctx, pm)
+        elif scn.get("entry") == "evaluator_object_sequence":
+            _run_evaluator_sequence(ctx, pm)
         else:
             built = _build_plan(ctx, context, scn["plan"], 0)
             ctx.built = built
